@@ -20,6 +20,7 @@ Exp == {[form |-> "exp", b |-> b, runs |-> r, agg |-> a] : b \in Bounds, r \in R
 Sim == {[form |-> f, b |-> b, runs |-> r, n |-> n] : f \in {"sim", "sim_reach", "sim_reach_n"}, b \in Bounds, r \in Runs, n \in 1..2}
 Control == {[form |-> f, sub |-> s] : f \in {"control_AG", "control_AF", "control_until", "ef_control", "po_control"}, s \in Sub}
            \cup {[form |-> f] : f \in {"control_t2", "control_t1", "control_t0"}}
+           \cup {[form |-> "control_buchi", conj |-> a, sub |-> s] : a \in {"and", "&&"}, s \in Sub}      \* control: A[] (p and A<> q) - the Buechi objective, a production of its own
 Learn == {[form |-> f, b |-> b, feat |-> ft, sub |-> s] : f \in {"minE", "maxE", "minPr", "maxPr"}, b \in Bounds,
             ft \in {"none", "both", "empty"}, s \in Sub}
 Strat == {[form |-> f] : f \in {"load", "load_feat", "save", "assign_minE", "assign_control"}}
@@ -35,7 +36,7 @@ RootKind(q) ==
       [] q.form = "leads" -> "LEADS_TO"
       [] q.form \in {"until", "control_until"} -> "A_UNTIL"
       [] q.form = "wuntil" -> "A_WEAK_UNTIL"
-      [] q.form = "buchi" -> "A_BUCHI"
+      [] q.form \in {"buchi", "control_buchi"} -> "A_BUCHI"
       [] q.form = "sup" -> "SUP_VAR" [] q.form = "inf" -> "INF_VAR" [] q.form = "bounds" -> "BOUNDS_VAR"
       [] q.form = "pr_quant" -> IF q.path = "box" THEN "PROBA_BOX" ELSE "PROBA_DIAMOND"
       [] q.form = "pr_until" -> "PROBA_DIAMOND"            \* `p U q` is the reachability of q with stop predicate p
